@@ -793,3 +793,41 @@ def rw_guard_into_wild(toks, counts):
         n += 1
     _count(counts, "R17", n)
     return toks
+
+
+def rw_assert_after_push_pairs(toks, counts, receiver, assertion, skip=()):
+    """Spec-side insertion (no executable change): after every two CONSECUTIVE statements `RECEIVER.push(..);`
+    a proof block with ASSERTION is inserted. `skip` lists 1-based pair numbers (in source order) to leave out."""
+    want = [t.text for t in lex(receiver + ".push") if is_sig(t)]
+    si = sig_idx(toks)
+    # statements starting with RECEIVER.push( ... );
+    stmts = []
+    for a in range(len(si) - len(want)):
+        if [toks[si[a + k]].text for k in range(len(want))] == want and toks[si[a + len(want)]].text == "(":
+            if a > 0 and toks[si[a - 1]].text not in (";", "{", "}"):
+                continue
+            o = si[a + len(want)]
+            c = match_close(toks, o)
+            e = next_sig(toks, c + 1)
+            if toks[e].text == ";":
+                stmts.append((si[a], e))
+    pairs = []
+    k = 0
+    while k + 1 < len(stmts):
+        s1, e1 = stmts[k]
+        s2, e2 = stmts[k + 1]
+        if next_sig(toks, e1 + 1) == s2:
+            pairs.append(e2); k += 2
+        else:
+            k += 1
+    if not pairs:
+        raise LostAnchor("no pair of consecutive %s.push statements found" % receiver)
+    out = toks
+    n = 0
+    for num, e2 in reversed(list(enumerate(pairs, 1))):
+        if num in skip:
+            continue
+        out = out[:e2 + 1] + [Tok("ws", "\n", 0), Tok("raw", "proof { %s } /* push pair #%d */" % (assertion, num), 0), Tok("ws", "\n", 0)] + out[e2 + 1:]
+        n += 1
+    counts["push_pairs"] = len(pairs)
+    return out
